@@ -1293,6 +1293,12 @@ func (g *Gen) locHeaps(key string, le Expr) []string {
 				}
 				return g.E.fieldHeapsNamed(g, f.Name)
 			}
+			if id, ok := x.Args[0].(*EIdent); ok {
+				if gd, ok := g.E.contracts.Ghosts[id.Name]; ok && gd.Kind == "field" {
+					h, _, _, _ := g.ghostHeap(gd)
+					return []string{h}
+				}
+			}
 		case "fields":
 			var hs []string
 			if id, ok := x.Args[0].(*EIdent); ok {
@@ -1606,6 +1612,12 @@ func (g *Gen) locOf(env *Env, le Expr) (heaps []string, idx string, whole bool, 
 		case "all":
 			if f, ok := x.Args[0].(*EField); ok {
 				if h, ok := g.allFieldHeap(f); ok {
+					return []string{h}, "", true, nil
+				}
+			}
+			if id, ok := x.Args[0].(*EIdent); ok {
+				if gd, ok := g.E.contracts.Ghosts[id.Name]; ok && gd.Kind == "field" {
+					h, _, _, _ := g.ghostHeap(gd)
 					return []string{h}, "", true, nil
 				}
 			}
